@@ -40,7 +40,7 @@ func baseOf(name string) string {
 		return "MemFS"
 	case strings.HasPrefix(name, "FailFS(MemFS"):
 		return "MemFS"
-	case strings.HasSuffix(name, "(MemFS)"):
+	case strings.HasSuffix(name, "(MemFS)"), strings.HasSuffix(name, "(MemFS))"):
 		return "MemFS"
 	case strings.HasSuffix(name, "(OrefaFS)"):
 		return "OrefaFS"
